@@ -67,21 +67,30 @@ pub fn pretty_print(
     }
 }
 
-/// Extract comments at the start of the file (before any non-trivia token)
+/// Extract the comments at the start of the file that belong to no token: the preparser drops the
+/// trivia of every line that ends before the first token. A comment on the line of the first token
+/// (`/* c */ fn dsp(){ .. }`) is leading trivia of that token and is printed together with it.
 fn extract_file_leading_comments(source: &str, tokens: &[Token]) -> String {
     let mut output = String::new();
+    let mut line = String::new();
     for token in tokens {
-        if token.is_trivia() {
-            if matches!(
-                token.kind,
-                TokenKind::SingleLineComment | TokenKind::MultiLineComment
-            ) {
-                output.push_str(token.text(source));
-                output.push('\n');
+        match token.kind {
+            TokenKind::SingleLineComment | TokenKind::MultiLineComment => {
+                line.push_str(token.text(source));
+                line.push('\n');
             }
-            continue;
+            TokenKind::LineBreak => {
+                output.push_str(&line);
+                line.clear();
+            }
+            // a file without any token: its comments belong to nothing else either
+            TokenKind::Eof => {
+                output.push_str(&line);
+                break;
+            }
+            _ if token.is_trivia() => {}
+            _ => break,
         }
-        break;
     }
     output
 }
@@ -1229,6 +1238,12 @@ where
             let token = &ctx.tokens[*token_index];
             match token.kind {
                 TokenKind::BlockBegin => {
+                    // Comments in front of a `{` that is the first token of the file stay in front of it
+                    if let Some(idx) = find_preparsed_index(*token_index, ctx.preparsed) {
+                        for trivia in ctx.preparsed.get_leading_trivia(idx, ctx.tokens) {
+                            result = result.append(emit_trivia(trivia, ctx.source, allocator));
+                        }
+                    }
                     // Emit { with trailing trivia (comments after {)
                     result = result.append(allocator.text("{"));
                     // Capture trailing trivia for { (like // comment after {)
@@ -2699,6 +2714,19 @@ mod tests {
     fn test_file_leading_multiple_comments() {
         let output = format("// comment 1\n// comment 2\nlet x = 1");
         assert_eq!(output, "// comment 1\n// comment 2\nlet x = 1\n");
+    }
+
+    #[test]
+    fn test_comment_before_first_token_on_its_line() {
+        let first = format("/* c */ let x = 1");
+        assert_eq!(first.matches("/* c */").count(), 1, "output: {first}");
+        assert_eq!(format(&first), first);
+        let first = format("// a\n/* b */ let x = 1");
+        assert_eq!(first, "// a\n /* b */ let x = 1\n");
+        assert_eq!(format(&first), first);
+        let first = format("/* c */ { 1 }");
+        assert_eq!(first, " /* c */ {\n    1\n}\n");
+        assert_eq!(format(&first), first);
     }
 
     // ========================================================================
